@@ -220,3 +220,41 @@ Theorem C15_source_covariance_bilinear :
     = c1 * cov_t expm Ss Slast alpha lam t a1 b + c2 * cov_t expm Ss Slast alpha lam t a2 b.
 Proof. move=> expm es n Ss Slast alpha lam t; exact: cov_t_lin_l. Qed.
 Print Assumptions C15_source_covariance_bilinear.
+
+(* ---- the SOURCE of SFSDistribution.accumulate / get_accumulation (pinned on every run by translate/sfs2coq.py into gen/SfsGen.v): row i
+   of sfs.accumulate(k, end_times, rewards, center, permute) is the accumulation of PhaseTypeDistribution (the parameter paccumulate)
+   with the rewards combined with the reward of bin i and THE SAME center and permute - the route through all bins and the route through
+   get_accumulation for one bin are the same number, for every order, centred or raw, symmetrised or ordered ---- *)
+From PG Require Import gen.SfsGen proofs.GenSfsEquiv.
+Theorem C15_distributions_py_sfs_accumulate_hands_on_center_and_permute :
+  forall (T : Type) (OP : Ops T) (Rw : Type) (combined : Rw -> nat -> Rw) (self_reward : Rw)
+         (paccumulate : nat -> list Rw -> bool -> bool -> list T) (n nt k : nat) (rewards : list Rw) (c p : bool) (i : nat),
+    Nat.le 1 i -> Nat.lt i n ->
+    List.nth i (SFSDistribution_accumulate OP Rw combined self_reward paccumulate n (UnfoldedSFSDistribution_get_indices n) nt k (Some rewards) c p)
+             (List.repeat (o0 OP) nt)
+    = paccumulate k (List.map (fun r => combined r i) rewards) c p
+    /\ List.nth i (SFSDistribution_accumulate OP Rw combined self_reward paccumulate n (UnfoldedSFSDistribution_get_indices n) nt k (Some rewards) c p)
+                (List.repeat (o0 OP) nt)
+       = SFSDistribution_get_accumulation Rw combined self_reward paccumulate k i (Some rewards) c p.
+Proof.
+  move=> T OP Rw combined self_reward paccumulate n nt k rewards c p i H1 H2.
+  split; exact: (gen_sfs_accumulate_unfolded_entry OP Rw combined self_reward paccumulate n nt k rewards c p i H1 H2).
+Qed.
+Print Assumptions C15_distributions_py_sfs_accumulate_hands_on_center_and_permute.
+
+Theorem C15_distributions_py_sfs_accumulate_layout :
+  forall (T : Type) (OP : Ops T) (Rw : Type) (combined : Rw -> nat -> Rw) (self_reward : Rw)
+         (paccumulate : nat -> list Rw -> bool -> bool -> list T) (n : nat) (indices : list nat) (nt k : nat) (rewards : option (list Rw)) (c p : bool),
+    Nat.le (List.length indices) n ->
+    List.length (SFSDistribution_accumulate OP Rw combined self_reward paccumulate n indices nt k rewards c p) = Nat.add n 1 /\
+    List.nth 0 (SFSDistribution_accumulate OP Rw combined self_reward paccumulate n indices nt k rewards c p) (List.repeat (o0 OP) nt)
+      = List.repeat (o0 OP) nt /\
+    (forall q, Nat.lt (List.length indices) q ->
+       List.nth q (SFSDistribution_accumulate OP Rw combined self_reward paccumulate n indices nt k rewards c p) (List.repeat (o0 OP) nt)
+       = List.repeat (o0 OP) nt).
+Proof.
+  move=> T OP Rw combined self_reward paccumulate n indices nt k rewards c p Hle.
+  case: (gen_sfs_accumulate_layout OP Rw combined self_reward paccumulate n indices nt k rewards c p Hle) => H0 [H1 [_ H3]].
+  by split; [exact: H0 | split; [exact: H1 | exact: H3]].
+Qed.
+Print Assumptions C15_distributions_py_sfs_accumulate_layout.
